@@ -84,7 +84,7 @@ Theorem C16_configured_measurement_arrives : forall e s slot ty l vs,
   dec_layout_of ty p = Some l -> length vs = length l ->
   exists pkt, marshal_message e ty dt vs = Some pkt /\
               client_values (data_frame pkt) = [option_map (fun q => (ty, q)) (at_precision ty p vs)] /\
-              at_precision ty p vs <> None.
+              at_precision ty p vs <> None /\ (length pkt <= 258)%nat.
 Proof. exact configured_measurement_arrives. Qed.
 Theorem C16_representable_values_unchanged : forall ty p l vs, dec_layout_of ty p = Some l ->
   Forall2 (fun f v => field_value_ok (snd f) v) l vs -> at_precision ty p vs = Some vs.
@@ -107,6 +107,33 @@ Theorem C16_acknowledge_bytes_scan_to_frames : forall cmds rsch fin ewd, sched_o
   run (2 * length (concat fs) + length rsch + 3) init_scanner (mk (concat fs) rsch fin ewd) [] = Some (fs, fin).
 Proof. exact acknowledge_bytes_scan_to_frames. Qed.
 Print Assumptions C16_transmitted_bytes_scan_to_frames.
+
+(* (8) everything together: after ANY schedule of ANY command sequence that ends in go-to-measurement, a measurement
+   of a configured type handed to MarshalMessage and Transmit is written as exactly one frame behind what is in
+   flight, and that frame is what the client decodes to the value at the configured precision *)
+Theorem C16_end_to_end : forall cmds sch s st slot ty l vs,
+  commands_ok cmds -> lrun (link_init cmds) sch = Some s -> data_phase s = true -> mode_after cmds = mid_meas ->
+  NoDup (map stype (conf_after [] cmds)) -> In st (conf_after [] cmds) ->
+  let '(dt, c, p, _) := st in
+  lookup_z dt dispatch_table = Some (slot, ty) -> In c [0; 4; 8; 12] -> In p [0; 1; 2; 3] ->
+  dec_layout_of ty p = Some l -> length vs = length l ->
+  exists pkt s1, marshal_message (lemu s) ty dt vs = Some pkt /\
+                 lstep s (ChTx (data_frame pkt)) = Some s1 /\ ltx s1 = ltx s ++ [data_frame pkt] /\
+                 le2c s1 = le2c s ++ [data_frame pkt] /\
+                 client_values (data_frame pkt) = [option_map (fun q => (ty, q)) (at_precision ty p vs)] /\
+                 at_precision ty p vs <> None.
+Proof. exact end_to_end. Qed.
+Print Assumptions C16_end_to_end.
+
+(* non-vacuity of (6)/(8): a LatLon at FP16.32 in a two-setting configuration, value (1.5, -2.25): arrives unchanged *)
+Example C16_example_value :
+  let e := {| emode := mid_meas; econf := [(0x2010, 0, 3, 100); (0x5040, 0, 2, 100)]; ealive := true; eport := [] |} in
+  let vs := [0x3FF8000000000000; 0xC002000000000000] in
+  match marshal_message e "LatLon" 0x5040 vs with
+  | Some pkt => client_values (data_frame pkt) = [Some ("LatLon"%string, vs)]
+  | None => False
+  end.
+Proof. vm_compute. reflexivity. Qed.
 
 (* non-vacuity: a concrete sequence with a shrinking reconfiguration under a non-canonical schedule *)
 Example C16_example :
